@@ -35,8 +35,8 @@ theorem dedup_eq (cs : List Nat) : ∀ acc : List Nat,
       apply List.filter_congr
       intro x _
       have e : (acc ++ [c]).contains x = (acc.contains x || x == c) := by
-        simp [List.contains_eq_mem, Bool.decide_or, Nat.beq_eq_true_eq]
-        cases decide (x ∈ acc) <;> simp [BEq.beq, Nat.beq_eq]
+        simp [List.contains_eq_mem, Bool.decide_or]
+        cases decide (x ∈ acc) <;> simp [BEq.beq]
       rw [e]
       cases acc.contains x <;> cases hd : (x == c) <;> simp [bne, hd]
 
